@@ -14,6 +14,17 @@ import FpgoVerif.Model.C03Defs
 
 namespace FpgoVerif.C03
 
+/-- helpers whose result is a list or a map ("documented as returning a new list or map"; the views
+    `Drop/DropLast/Take/TakeLast/Tail` included: they must not write either) -/
+def newDataHelpers : List String :=
+  ["Map", "MapIndexed", "Filter", "Reject", "Concat", "Flatten", "Distinct", "Dedupe", "DropEq", "Drop", "DropLast",
+   "DropWhile", "Take", "TakeLast", "Tail", "Reverse", "Prepend", "Partition", "SplitEvery", "GroupBy", "UniqBy", "Zip",
+   "Range", "Keys", "Values", "Merge", "SliceToMap", "DuplicateSlice", "DuplicateMap"]
+
+/-- helpers that return a scalar / boolean -/
+def queryHelpers : List String :=
+  ["Reduce", "Head", "Min", "Max", "MinMax", "Every", "Some", "Exists", "IsEqual", "IsEqualMap", "IsDistinct"]
+
 /-! ### tokens and the shared function families -/
 
 def charSum (s : String) : Int := s.toList.foldl (fun a c => a + (c.toNat : Int) - 96) 0
